@@ -72,15 +72,35 @@ def oracle_ext(case, obs):
     fails = []
     for i, (op, st) in enumerate(zip(case["ops"], obs["steps"])):
         oc = str(st["outcome"])
-        if oc.startswith("error") and not any(k in oc for k in KNOWN_EXT_ERRORS):
+        # an exception inside an operation is other properties' business (C05, C12, ...) as long as the workspace can still be
+        # closed and re-opened and the re-opened tree equals the live one; a close / open that raises is C01's
+        if oc.startswith("error") and op["op"] == "reopen" and not any(k in oc for k in KNOWN_EXT_ERRORS):
             fails.append({"key": "ext-unexpected-exception", "what": f"op {i} {op}: {oc[:200]}"})
             break
     for k, per_ws in enumerate(obs["reopen_diffs"]):
         for w, d in enumerate(per_ws):
             if d:
-                fails.append({"key": "ext-reopen-differs", "what": f"re-open #{k}, workspace {w}: {str(d)[:500]}"})
+                fails.append({"key": _classify_ext_diff(case, obs, d), "what": f"re-open #{k}, workspace {w}: {str(d)[:500]}"})
                 return fails
     return fails
+
+
+def _classify_ext_diff(case, obs, diffs):
+    """recorded defect 'stale-type-reused': a data type identifier supplied by the caller returns with another primitive type
+    while the dead type's node is still in the file (the Types registry is swept only by ws.types / the next removal)"""
+    type_fields = {"cls", "primitive", "type_name", "values", "type"}
+    if all("fields" in x and set(x["fields"]) <= type_fields for x in diffs):
+        uids = {x["uid"] for x in diffs}
+        for i, (op, st) in enumerate(zip(case["ops"], obs["steps"])):
+            if op["op"] == "add_data" and op.get("type_uid") and st["info"].get("target") in uids:
+                j = i - 1
+                listed = False
+                while j >= 0 and case["ops"][j]["op"] != "rm_ws":
+                    if case["ops"][j]["op"] == "listing" and case["ops"][j]["kind"] == "types" and obs["steps"][j]["outcome"] == "done":
+                        listed = True
+                    j -= 1
+                return "stale-type-after-listing" if listed else "stale-type-reused"
+    return "ext-reopen-differs"
 
 
 def _tree(rows):
